@@ -23,8 +23,8 @@ CLAIMED = {
   text="For <=4 files with arbitrary (symbolic) walked / allow / ignore / named-in-diff flags, symbolic should_scan_files and several walk and map iteration orders, Z3 shows on the MIR of parse_blocks/parse_file that the files read are exactly (scan and walked and allow, or in diff) minus ignore, each once, and are the keys of the result. For every diff target path up to N bytes, line_changes_from_diff files it under the target minus exactly one leading b/, and skips removed files.",
   note="Trusted: interpreter, HashMap/iterator/string models. Stubs (arbitrary within their contract): globset (allow/ignore are free booleans per path), ignore::Walk, FileSystem, BlocksParser::parse, unidiff::PatchSet::from_str. Not decided: glob semantics, hidden/git-ignored files, repository-root discovery, cwd, quoted paths."),
  'C10': dict(
-  text="For every enumerated layout (lines before, indentation, 1-4 comment lines, tag on any of them, text after the comment on its last line, per-line lead/key/trail shapes) and every value of the key and blank bytes, Z3 shows on the MIR of the block parser glue and of the five sync validators: a sort/unique/pattern violation's line and byte columns delimit exactly the first offending key in the assembled file; line-count and affects violations span exactly '<'..'>' of the start tag; the block's tag position and content byte range are those of the layout.",
-  note="Trusted: interpreter, string models. Stubs: tree-sitter (the two Comment values of a /* */ layout; validated on sampled witnesses against the real binary), regex for ^a+$ only; the tag scanner and grammar are the crate's MIR on the winnow combinator models (C05), serde_json::to_value. Not decided: Lua/AI ranges (async), regex-group keys, multi-byte text, other comment syntaxes."),
+  text="For every enumerated layout (lines before, indentation, 1-4 comment lines, tag on any of them, text after the comment on its last line, per-line lead/key/trail shapes) and every value of the key and blank bytes, Z3 shows on the MIR of the block parser glue and of the five sync validators: a sort/unique/pattern violation's line and byte columns delimit exactly the first offending key in the assembled file; line-count and affects violations span exactly '<'..'>' of the start tag; the block's tag position and content byte range are those of the layout. Start tags over one to three lines. MdParser::parse_html_comments with symbolic html-block start (row, column) and symbolic block-relative comment positions: file line = row + relative line, file column = relative column plus the block's column iff on the block's first line, byte range shifted by the block's start byte.",
+  note="Trusted: interpreter, string models. Stubs: tree-sitter (the two Comment values of a /* */ layout; validated on sampled witnesses against the real binary), tree-sitter's html-block query results and the inner HTML comment parser (block-relative comments) in the Markdown harness; regex for ^a+$ only; the tag scanner and grammar are the crate's MIR on the winnow combinator models (C05), serde_json::to_value. Not decided: Lua/AI ranges (async), regex-group keys, multi-byte text, other comment syntaxes."),
  'C06': dict(
   text="For every enumerated configuration (direction spelled empty/asc/ASC/desc/Desc, lexicographic or numeric format) and per-line shape of up to N content lines, and every value of the key and blank bytes, Z3 shows on the MIR of KeepSortedValidator::validate and its helpers: a violation is reported iff some key is strictly out of order w.r.t. its predecessor (bytewise, or as integers under numeric; equal neighbours are in order), exactly one, designating the first such key; the verdict does not depend on the is_content_modified / tag-modified flags. Blanks range over space, tab, vertical tab and a literal three-byte U+3000; one or two blocks per file, also with different rules on the two blocks.",
   note="Trusted: interpreter, string models incl. the integer fragment of f64 parsing/comparison. Stubs as in C10. Not decided: keep-sorted-pattern (regex) forms, decimal/exponent/inf/nan numerics, non-ASCII keys, more than 5 lines."),
@@ -73,7 +73,7 @@ NOT_APPLICABLE = {
 }
 PENDING = "harness not built yet (planned, DESIGN.md section 4)"
 
-FIX_COMMITS = ["7840229", "fe70c83", "d9a5bb3", "c089a2f", "882bf2f", "408e5a1", "b3177b8", "072e4ba", "0c70c7a"]
+FIX_COMMITS = ["7840229", "fe70c83", "d9a5bb3", "c089a2f", "882bf2f", "408e5a1", "b3177b8", "072e4ba", "0c70c7a", "7183ca5"]
 
 
 def main():
